@@ -35,6 +35,14 @@ type replayer struct {
 	race bool
 	w    *worker
 	runs int
+	candidateLimit time.Duration
+}
+
+func (r *replayer) limit() time.Duration {
+	if r.candidateLimit > 0 {
+		return r.candidateLimit
+	}
+	return 3 * time.Minute
 }
 
 func (r *replayer) close() {
@@ -56,7 +64,7 @@ func (r *replayer) try(job *Job, sig string) (*FoundViolation, error) {
 	job.Cfg = r.cfg
 	job.Cfg.Text = ""
 	r.runs++
-	res, err := r.w.run(job, 3*time.Minute)
+	res, err := r.w.run(job, r.limit())
 	if err != nil {
 		if _, ok := err.(*jobDeath); ok {
 			r.w.kill()
@@ -105,6 +113,7 @@ func minimise(bin string, v foundWithJob, race bool) (min FoundViolation, orig F
 	best.Sched = append([]int(nil), v.fv.Sched...)
 	deadline := time.Now().Add(90 * time.Second)
 	budget := 400
+	rp.candidateLimit = 20 * time.Second // a candidate that wedges is simply not kept
 	test := func(world, sched []int) bool {
 		if budget <= 0 || time.Now().After(deadline) {
 			return false
@@ -183,6 +192,7 @@ func minimise(bin string, v foundWithJob, race bool) (min FoundViolation, orig F
 	}
 	// final: replay the minimised tapes in a fresh process, with the event log kept
 	rp.close()
+	rp.candidateLimit = 0
 	world, sched := best.World, best.Sched
 	final, err := rp.try(replayJob(v.job, v.fv.Seed, world, sched, true), sig)
 	if err != nil {
